@@ -517,6 +517,11 @@ class Ev:
 
     def num2(self, a, b, node):
         a, b = self.unopt(a, node), self.unopt(b, node)
+        # a library attribute used as a number (np.euler_gamma, np.finfo(...).eps ...): an unknown real constant
+        if a.ty.k == "fn" and a.ty.a == ("lib",) and isinstance(a.t, str):
+            a = Val(z3.Real("k_lib_" + a.t.replace(".", "_")), REAL)
+        if b.ty.k == "fn" and b.ty.a == ("lib",) and isinstance(b.t, str):
+            b = Val(z3.Real("k_lib_" + b.t.replace(".", "_")), REAL)
         if not (a.ty.isnum() or a.ty.k == "bool") or not (b.ty.isnum() or b.ty.k == "bool"):
             raise Unsupported("arithmetic on %s and %s" % (a.ty, b.ty))
         if a.ty.k == "bool":
